@@ -5,3 +5,6 @@ package main
 const haveInternals = false
 
 func (x *Ctx) internalPrefix(s, p []byte) {}
+
+func (x *Ctx) internalRune(s []byte, r int64) {}
+func (x *Ctx) internalByte(s []byte, c int64) {}
